@@ -14,7 +14,7 @@ TEARDOWN_MODS = ["self._closed", "self._channel.stream.sock", "self._request_cal
                  "self._local_root", "self._HANDLERS"]
 
 
-from contracts.protocol_core import EXC_CONFIG
+from contracts.protocol_core import EXC_CONFIG, OPEN, TABLE_OK
 
 
 def register(S):
@@ -67,9 +67,15 @@ def register(S):
     CFG = ["all_slots_ok(self._local_objects._dict) and cache_ok(self._proxy_cache._dict, self) and generic_cache_ok(module_global('rpyc.core.vinegar', '_generic_exceptions_cache'))", "haskey(self._config, 'close_catchall')", "haskey(self._config, 'logger')",
            # scope: no before_closed hook configured (it fetches the remote root, i.e. serves traffic re-entrantly)
            "not haskey(self._config, 'before_closed') or not truthy(self._config['before_closed'])"]
-    S.contract(F + "root", params={"self": "obj:Connection"}, result="val", trusted=True,
-               note="ASSUMED (interface): fetches the remote root by a synchronous request (serves traffic meanwhile)",
-               ensures={}, raises={"BaseException": {"props": ["C11"], "modifies": CLOSEMODS}}, modifies=CLOSEMODS)
+    S.contract(F + "root", params={"self": "obj:Connection"}, result="val",
+               note="fetches the remote root by a synchronous request the first time (serves traffic meanwhile) and remembers it",
+               init={"self._sendlock.held": "False", "self._send_queue.items": "nil()"}, clock=True,
+               requires=OPEN + [TABLE_OK, "haskey(self._config, 'sync_request_timeout')",
+                                "isnone(self._config['sync_request_timeout']) or (isnum(self._config['sync_request_timeout']) "
+                                "and num_of(self._config['sync_request_timeout']) >= 0)"],
+               ensures={"asks_at_most_once": ("n_callees('sync_request') == (1 if isnone(old(self._remote_root)) else 0) and "
+                                              "same(result, self._remote_root)", ["C11"])}, raises={"BaseException": {"props": ["C11"], "modifies": ALLMODS + ["self._remote_root"]}},
+               modifies=ALLMODS + ["self._remote_root"])
     S.contract(F + "close", params={"self": "obj:Connection"},
                abstract_calls={"self._local_root.on_disconnect": "hook_disconnect"},
                dispatch=[("self._closed", "again"), (SOCK + " is ClosedFile", "first_dead"), (None, "first")],
